@@ -1,4 +1,4 @@
 SPECIFICATION Spec
-CONSTANTS FullLimit = 7
+CONSTANTS FullLimit = 9
 INVARIANTS Emit
 CHECK_DEADLOCK FALSE
